@@ -19,6 +19,41 @@ class Undecided(Exception):
     """construct outside the analysable fragment: the indicator is reported as undecided, never as a violation"""
 
 
+class TimeBudget(BaseException):
+    """raised by time_limit (a BaseException: the `except Undecided` / `except Exception` handlers of the rule code must not swallow
+    it and carry on with the timer disarmed)"""
+
+
+class time_limit:
+    """wall-clock budget for one unit of symbolic work (main thread only): a computation that blows up - a reformulated indicator
+    whose normal form explodes - ends as Undecided instead of hanging the check"""
+
+    def __init__(self, seconds: float, what: str = "symbolic work"):
+        self.seconds, self.what = seconds, what
+        self.active = False
+
+    def _fire(self, signum, frame):
+        raise TimeBudget(f"{self.what}: time budget of {self.seconds:.0f} s exceeded")
+
+    def __enter__(self):
+        import signal, threading
+        if threading.current_thread() is threading.main_thread():
+            try:
+                self.old = signal.signal(signal.SIGALRM, self._fire)
+                signal.setitimer(signal.ITIMER_REAL, self.seconds)
+                self.active = True
+            except (ValueError, OSError):
+                self.active = False
+        return self
+
+    def __exit__(self, *exc):
+        if self.active:
+            import signal
+            signal.setitimer(signal.ITIMER_REAL, 0)
+            signal.signal(signal.SIGALRM, self.old)
+        return False
+
+
 class D:
     __slots__ = ("m", "h", "op", "args", "fi")
 
